@@ -80,6 +80,22 @@ def handleAdapt (req : Json) : Except String Json := do
   | .keep => return Json.mkObj [("decision", "keep")]
   | .convert s t => return Json.mkObj [("decision", "convert"), ("src", toJson s), ("tgt", toJson t)]
 
+/-- `{"kind":"results","thook":…,"vhook":…,"check":…,"req":[[name,key],…],"concrete":[…],"rc":bool}` :
+    `Custom.resultInfo` on the requested outputs of a freshly inferred custom node. -/
+def handleResults (req : Json) : Except String Json := do
+  let thook ← pairs (← req.getObjVal? "thook")
+  let vhook ← pairs (← req.getObjVal? "vhook")
+  let pass ← pairs (← req.getObjVal? "check")
+  let check : String → String → Bool := fun t v => pass.contains (t, v)
+  let concrete ← req.getObjValAs? (List String) "concrete"
+  let rc ← req.getObjValAs? Bool "rc"
+  let rq ← pairs (← req.getObjVal? "req")
+  match resultInfo (fun t => concrete.contains t) rc
+      (rq.map fun p => (p.1, outAfter check thook vhook p.2)) with
+  | .ok l => return Json.mkObj [("ok", Json.arr (l.map fun i => Json.arr #[Json.str i.1, Json.str i.2]).toArray)]
+  | .error (.untyped n) => return Json.mkObj [("err", "untyped"), ("name", n)]
+  | .error (.notConcrete n) => return Json.mkObj [("err", "notConcrete"), ("name", n)]
+
 def handle (req : Json) : Json :=
   match (do
     let kind ← req.getObjValAs? String "kind"
@@ -88,6 +104,7 @@ def handle (req : Json) : Json :=
     | "opsets" => handleOpsets req
     | "infer" => handleInfer req
     | "adapt" => handleAdapt req
+    | "results" => handleResults req
     | _ => throw "unknown kind") with
   | .ok j => j
   | .error e => Json.mkObj [("error", e)]
